@@ -96,11 +96,30 @@ def chunkC (indent : Nat) (item : TagInfo) : List Char :=
   if item.isComment then (if item.included then [] else List.replicate item.startOff '\n' ++ item.text)
   else chunk indent item
 
+/-- the offsets the writer uses after the `fix:` commit (definition in Lemmas/TreeWriter.lean): going through the
+    sorted group with the flag `after_line_comment` (initially false), an element or kept comment whose recorded
+    start offset is 0 while the flag is set is written with offset 1; the flag is cleared by every element and
+    recomputed by every kept comment (`comment.trim_start().starts_with("//")`); nothing else changes -/
+theorem bumpItems_def (alc : Bool) (item : TagInfo) (rest : List TagInfo) :
+    bumpItems alc (item :: rest) =
+      if item.isComment then
+        if item.included then item :: bumpItems alc rest
+        else { item with startOff := bumpOff alc item.startOff } :: bumpItems (isLineCommentText item.text) rest
+      else { item with startOff := bumpOff alc item.startOff } :: bumpItems false rest := rfl
+
+theorem bumpOff_def (alc : Bool) (n : Nat) : bumpOff alc n = if alc ∧ n = 0 then 1 else n := rfl
+
 /-- **with comments**: the output of any group without position-restricted items is the concatenation of the
-    per-item contributions in sorted order; comments are written verbatim behind their recorded line breaks -/
+    per-item contributions in sorted order, where the item directly behind a written `//` comment is written with
+    start offset 1 if its recorded offset is 0 (a line comment extends to the end of its line); comments are written
+    verbatim behind their line breaks -/
 theorem addGroup_chunks_comments (indent : Nat) (g : List TagInfo) (hp : ∀ x ∈ g, x.pos = none) :
-    addGroup indent g = (g.mergeSort tagLe).flatMap (chunkC indent) :=
+    addGroup indent g = (bumpItems false (g.mergeSort tagLe)).flatMap (chunkC indent) :=
   addGroup_noPos indent g hp
+
+/-- without comments nothing is bumped -/
+theorem bumpItems_no_comments (l : List TagInfo) (h : ∀ x ∈ l, x.isComment = false) : bumpItems false l = l :=
+  bumpItems_plain l h
 
 /-! ## non-vacuity -/
 def sampleItem : TagInfo :=
